@@ -681,13 +681,16 @@ func (u *Upstream) resume(newConn *wire.ClientConn) error {
 	if !u.state.Is(streamStatusResuming) {
 		return fmt.Errorf("invalid state want[%v] but[%v]", streamStatusResuming, u.state.Current())
 	}
+	// the chunk senders read u.wireConn under u.mu
+	u.mu.Lock()
 	u.wireConn = newConn
+	u.mu.Unlock()
 
 	var resp *message.UpstreamResumeResponse
 	var resErr error
 
 	retry.Do(func() (end bool) {
-		resp, resErr = u.wireConn.SendUpstreamResumeRequest(u.ctx, &message.UpstreamResumeRequest{
+		resp, resErr = newConn.SendUpstreamResumeRequest(u.ctx, &message.UpstreamResumeRequest{
 			StreamID: u.ID,
 		}, u.Config.QoS)
 		if resErr != nil {
@@ -709,7 +712,7 @@ func (u *Upstream) resume(newConn *wire.ClientConn) error {
 		return errors.Errorf("failed send upstream resume request: %w", resErr)
 	}
 
-	ch, err := u.wireConn.SubscribeUpstreamChunkAck(u.ctx, resp.AssignedStreamIDAlias)
+	ch, err := newConn.SubscribeUpstreamChunkAck(u.ctx, resp.AssignedStreamIDAlias)
 	if err != nil {
 		return errors.Errorf("failed to SubscribeUpstreamChunkAck: %w", err)
 	}
